@@ -114,5 +114,5 @@ Definition agree (co : mcase * list Z) : bool :=
   match split_obs (length (mc_ops c)) (snd co) with
   | None => false
   | Some obs => agree_lists (mc_pool c) (mc_ops c)
-                            (mrun (mc_family c =? 3) (mc_nres c) (mc_pool c) mgr0 (mc_ops c)) obs
+                            (mrun (3 <=? mc_family c) (mc_nres c) (mc_pool c) mgr0 (mc_ops c)) obs
   end.
